@@ -117,7 +117,15 @@ impl Shape {
             } else {
                 shape_title(&mut cx.rng, lang, &corpus)
             };
+            // now and then the next record is the once-composed spelling of this one (the language object sees a text
+            // that equals what it has just produced)
+            let once: String = oracle::compose(lang, &cv(&t)).into_iter().collect();
+            let follow = !crowd && once != t && cx.rng.chance(1, 4);
             recs.push((100 + i * 5, t, cx.rng.below(50)));
+            if follow {
+                recs.push((100 + i * 5 + 1, once, cx.rng.below(50)));
+                cx.count("records followed by their own once-composed spelling");
+            }
         }
         if crowd {
             cx.count("stores of 70-150 records with one very long title");
@@ -168,7 +176,7 @@ impl Shape {
             cx.count("marker stores configured through the public field");
         }
         let mut prev_q: Option<String> = None;
-        let toks: Vec<TextOwn> = recs.iter().map(|r| st.tok_record(&r.1)).collect();
+        let toks: Vec<TextOwn> = recs.iter().map(|r| reference_tok(lang, &r.1)).collect();
         let rgrams: Vec<BTreeSet<oracle::Gram>> = toks.iter().map(oracle::grams_of).collect();
         for qk in 0..8 {
             let q = if let (Some(pq), 1) = (&planted, qk) {
